@@ -16,213 +16,122 @@
 #define sexp_bignum_normalize(x) x
 #endif
 
-/* The twos complement form of a negative bignum has a -1 sign */
-/* and bits adjusted as usual, extending just the high word with */
-/* leading ones.  Bitwise operations are then performed as usual. */
-/* If the result has a leading extended one from a twos complement */
-/* number, the complement is reversed and sign remains negative. */
-/* Otherwise, the result is positive, the sign is set to 1 and there's */
-/* no need to undo the complement. */
-static void sexp_set_twos_complement (sexp a) {
-  int i, len=sexp_bignum_length(a), carry = 1;
-  sexp_uint_t* data = sexp_bignum_data(a), n;
-  for (i=len-1; i >=0; --i)
-    data[i] = ~data[i];
-  /* sexp_bignum_fxadd with no final carry */
-  i = 0;
-  do { n = data[i];
-       data[i] += carry;
-       carry = (n > (SEXP_UINT_T_MAX - carry));
-  } while (++i<len && carry);
-}
+/* Bitwise operations treat an exact integer as an infinite two's */
+/* complement bit string.  A bignum is sign + magnitude, so the words */
+/* of the two's complement form are generated on the fly (inverting */
+/* the magnitude and propagating the +1 for negative values), the */
+/* operation is applied word by word over one word more than the */
+/* longer operand (so that the top word holds only sign bits), and a */
+/* negative result is converted back to sign + magnitude. */
 
-static sexp sexp_twos_complement (sexp ctx, sexp x) {
-  sexp_gc_var1(res);
-  if (sexp_bignump(x) && sexp_bignum_sign(x) < 0) {
-    sexp_gc_preserve1(ctx, res);
-    res = sexp_copy_bignum(ctx, NULL, x, 0);
-    sexp_set_twos_complement(res);
-    sexp_gc_release1(ctx);
-    return res;
+#if SEXP_USE_BIGNUMS
+
+typedef struct {
+  sexp x;
+  sexp_sint_t len;              /* magnitude words */
+  int negp;
+  sexp_uint_t carry;
+} sexp_twos_iter;
+
+static void sexp_twos_init (sexp_twos_iter *it, sexp x) {
+  it->x = x;
+  it->carry = 1;
+  if (sexp_fixnump(x)) {
+    it->len = 1;
+    it->negp = sexp_unbox_fixnum(x) < 0;
+  } else {
+    it->len = sexp_bignum_hi(x);
+    it->negp = sexp_bignum_sign(x) < 0;
   }
-  return x;
 }
 
-static sexp sexp_fixnum_to_twos_complement (sexp ctx, sexp x, int len) {
-  int i;
-  sexp_gc_var1(res);
-  sexp_gc_preserve1(ctx, res);
+/* the i-th word of the two's complement form; must be called for */
+/* i = 0, 1, 2, ... in order */
+static sexp_uint_t sexp_twos_next (sexp_twos_iter *it, sexp_sint_t i) {
+  sexp_uint_t w;
+  if (sexp_fixnump(it->x))
+    return (i == 0) ? (sexp_uint_t)sexp_unbox_fixnum(it->x)
+      : (it->negp ? ~(sexp_uint_t)0 : (sexp_uint_t)0);
+  w = (i < it->len) ? sexp_bignum_data(it->x)[i] : 0;
+  if (it->negp) {
+    w = ~w + it->carry;
+    it->carry = (it->carry && w == 0);
+  }
+  return w;
+}
+
+enum { SEXP_BIT_AND, SEXP_BIT_IOR, SEXP_BIT_XOR };
+
+static sexp sexp_bit_op (sexp ctx, int op, sexp x, sexp y) {
+  sexp_twos_iter ix, iy;
+  sexp_sint_t i, len;
+  sexp_uint_t wx, wy, carry, *data;
+  sexp res;
+  sexp_twos_init(&ix, x);
+  sexp_twos_init(&iy, y);
+  len = (ix.len > iy.len ? ix.len : iy.len) + 1;
   res = sexp_make_bignum(ctx, len);
-  if (sexp_unbox_fixnum(x) < 0)
-    for (i = len-1; i > 0; i--)
-      sexp_bignum_data(res)[i] = (sexp_uint_t)((sexp_sint_t)-1);
-  sexp_bignum_data(res)[0] = ~(-(sexp_unbox_fixnum(x)));
-  res = sexp_bignum_fxadd(ctx, res, 1);
-  if (sexp_bignum_length(res) == len + 1 && sexp_bignum_data(res)[len] == 1)
-    sexp_bignum_data(res)[len] = -1;
-  if (sexp_unbox_fixnum(x) < 0)
+  if (sexp_exceptionp(res)) return res;
+  data = sexp_bignum_data(res);
+  for (i = 0; i < len; i++) {
+    wx = sexp_twos_next(&ix, i);
+    wy = sexp_twos_next(&iy, i);
+    data[i] = (op == SEXP_BIT_AND) ? (wx & wy) : (op == SEXP_BIT_IOR) ? (wx | wy) : (wx ^ wy);
+  }
+  if ((sexp_sint_t)data[len-1] < 0) { /* negative: back to sign + magnitude */
+    for (i = 0, carry = 1; i < len; i++) {
+      data[i] = ~data[i] + carry;
+      carry = (carry && data[i] == 0);
+    }
     sexp_bignum_sign(res) = -1;
-  sexp_gc_release1(ctx);
-  return res;
+  }
+  return sexp_bignum_normalize(res);
+}
+
+#endif
+
+static int sexp_exact_integer_p (sexp x) {
+#if SEXP_USE_BIGNUMS
+  return sexp_fixnump(x) || sexp_bignump(x);
+#else
+  return sexp_fixnump(x);
+#endif
 }
 
 sexp sexp_bit_and (sexp ctx, sexp self, sexp_sint_t n, sexp x, sexp y) {
-#if SEXP_USE_BIGNUMS
-  sexp_sint_t len, lenx, leny, i;
-#endif
-  sexp_gc_var3(res, x2, y2);
-  if (sexp_fixnump(x) && sexp_fixnump(y)) {
+  if (! sexp_exact_integer_p(x))
+    return sexp_type_exception(ctx, self, SEXP_FIXNUM, x);
+  if (! sexp_exact_integer_p(y))
+    return sexp_type_exception(ctx, self, SEXP_FIXNUM, y);
+  if (sexp_fixnump(x) && sexp_fixnump(y))
     return (sexp) ((sexp_uint_t)x & (sexp_uint_t)y);  /* safe to AND tags */
 #if SEXP_USE_BIGNUMS
-  } else if (sexp_fixnump(x) && sexp_bignump(y)) {
-    return sexp_bit_and(ctx, self, n, y, x);
-  } else if (sexp_bignump(x)) {
-    sexp_gc_preserve3(ctx, res, x2, y2);
-    x2 = sexp_twos_complement(ctx, x);
-    y2 = sexp_twos_complement(ctx, y);
-    if (sexp_fixnump(y2) && sexp_unbox_fixnum(y2) < 0)
-      y2 = sexp_fixnum_to_twos_complement(ctx, y2, sexp_bignum_length(x2));
-    if (sexp_fixnump(y2)) {
-      res = sexp_make_fixnum(sexp_unbox_fixnum(y2) & sexp_bignum_data(x2)[0]);
-    } else if (sexp_bignump(y2)) {
-      lenx = sexp_bignum_length(x2);
-      leny = sexp_bignum_length(y2);
-      if (leny < lenx)
-        res = sexp_copy_bignum(ctx, NULL, x2, 0);
-      else
-        res = sexp_copy_bignum(ctx, NULL, y2, 0);
-      for (i=0, len=sexp_bignum_length(res); i<len; i++)
-        sexp_bignum_data(res)[i]
-          = (i<lenx ? sexp_bignum_data(x2)[i] : sexp_bignum_sign(x2) < 0 ? -1 : 0) &
-            (i<leny ? sexp_bignum_data(y2)[i] : sexp_bignum_sign(y2) < 0 ? -1 : 0);
-      if ((sexp_bignum_sign(x2) < 0 || sexp_bignum_sign(y2) < 0) && ((sexp_sint_t)(sexp_bignum_data(res)[len-1])) < 0) {
-        sexp_set_twos_complement(res);
-        if (sexp_bignum_sign(res) > 0) {
-          sexp_negate_exact(res);
-        }
-      } else if (sexp_bignum_sign(res) < 0) {
-        sexp_negate_exact(res);
-      }
-    } else {
-      res = sexp_type_exception(ctx, self, SEXP_FIXNUM, y2);
-    }
-    sexp_gc_release3(ctx);
-    return sexp_bignum_normalize(res);
+  return sexp_bit_op(ctx, SEXP_BIT_AND, x, y);
 #endif
-  } else {
-    return sexp_type_exception(ctx, self, SEXP_FIXNUM, x);
-  }
 }
 
 sexp sexp_bit_ior (sexp ctx, sexp self, sexp_sint_t n, sexp x, sexp y) {
+  if (! sexp_exact_integer_p(x))
+    return sexp_type_exception(ctx, self, SEXP_FIXNUM, x);
+  if (! sexp_exact_integer_p(y))
+    return sexp_type_exception(ctx, self, SEXP_FIXNUM, y);
+  if (sexp_fixnump(x) && sexp_fixnump(y))
+    return (sexp) ((sexp_uint_t)x | (sexp_uint_t)y);
 #if SEXP_USE_BIGNUMS
-  sexp_sint_t len, tmplen, i;
+  return sexp_bit_op(ctx, SEXP_BIT_IOR, x, y);
 #endif
-  sexp_gc_var2(res, tmp);
-  if (sexp_fixnump(x)) {
-    if (sexp_fixnump(y))
-      res = (sexp) ((sexp_uint_t)x | (sexp_uint_t)y);
-#if SEXP_USE_BIGNUMS
-    else if (sexp_bignump(y))
-      res = sexp_bit_ior(ctx, self, n, y, x);
-#endif
-    else
-      res = sexp_type_exception(ctx, self, SEXP_FIXNUM, y);
-#if SEXP_USE_BIGNUMS
-  } else if (sexp_bignump(x)) {
-    sexp_gc_preserve2(ctx, res, tmp);
-    if (sexp_fixnump(y) && sexp_unbox_fixnum(y) >= 0) {
-      res = sexp_copy_bignum(ctx, NULL, x, 0);
-      if (sexp_bignum_sign(res) < 0)
-        sexp_set_twos_complement(res);
-      sexp_bignum_data(res)[0] |= (sexp_uint_t)sexp_unbox_fixnum(y);
-      if (sexp_bignum_sign(res) < 0)
-        sexp_set_twos_complement(res);
-    } else if (sexp_bignump(y) || sexp_fixnump(y)) {
-      if (sexp_fixnump(y) || sexp_bignum_length(x) >= sexp_bignum_length(y)) {
-        res = sexp_copy_bignum(ctx, NULL, x, 0);
-        len = sexp_bignum_length(res);
-        tmp = sexp_fixnump(y) ? sexp_fixnum_to_twos_complement(ctx, y, len) : sexp_twos_complement(ctx, y);
-      } else {
-        res = sexp_copy_bignum(ctx, NULL, y, 0);
-        len = sexp_bignum_length(res);
-        tmp = sexp_twos_complement(ctx, x);
-      }
-      if (sexp_bignum_sign(res) < 0)
-        sexp_set_twos_complement(res);
-      tmplen = sexp_bignum_length(tmp);
-      for (i=0; i<len; i++)
-        sexp_bignum_data(res)[i] |= (i<tmplen ? sexp_bignum_data(tmp)[i] : sexp_bignum_sign(tmp) < 0 ? -1 : 0);
-      if ((sexp_bignum_sign(res) < 0 || sexp_bignum_sign(tmp) < 0) && ((sexp_sint_t)(sexp_bignum_data(res)[len-1])) < 0) {
-        sexp_set_twos_complement(res);
-        if (sexp_bignum_sign(res) > 0) {
-          sexp_negate_exact(res);
-        }
-      }
-    } else {
-      res = sexp_type_exception(ctx, self, SEXP_FIXNUM, y);
-    }
-    sexp_gc_release2(ctx);
-#endif
-  } else {
-    res = sexp_type_exception(ctx, self, SEXP_FIXNUM, x);
-  }
-  return sexp_bignum_normalize(res);
 }
 
 sexp sexp_bit_xor (sexp ctx, sexp self, sexp_sint_t n, sexp x, sexp y) {
+  if (! sexp_exact_integer_p(x))
+    return sexp_type_exception(ctx, self, SEXP_FIXNUM, x);
+  if (! sexp_exact_integer_p(y))
+    return sexp_type_exception(ctx, self, SEXP_FIXNUM, y);
+  if (sexp_fixnump(x) && sexp_fixnump(y))
+    return sexp_make_fixnum(sexp_unbox_fixnum(x) ^ sexp_unbox_fixnum(y));
 #if SEXP_USE_BIGNUMS
-  sexp_sint_t len, tmplen, i;
+  return sexp_bit_op(ctx, SEXP_BIT_XOR, x, y);
 #endif
-  sexp_gc_var2(res, tmp);
-  if (sexp_fixnump(x)) {
-    if (sexp_fixnump(y))
-      res = sexp_make_fixnum(sexp_unbox_fixnum(x) ^ sexp_unbox_fixnum(y));
-#if SEXP_USE_BIGNUMS
-    else if (sexp_bignump(y))
-      res = sexp_bit_xor(ctx, self, n, y, x);
-#endif
-    else
-      res = sexp_type_exception(ctx, self, SEXP_FIXNUM, y);
-#if SEXP_USE_BIGNUMS
-  } else if (sexp_bignump(x)) {
-    sexp_gc_preserve2(ctx, res, tmp);
-    if (sexp_fixnump(y) && sexp_unbox_fixnum(y) >= 0) {
-      res = sexp_copy_bignum(ctx, NULL, x, 0);
-      if (sexp_bignum_sign(res) < 0)
-        sexp_set_twos_complement(res);
-      sexp_bignum_data(res)[0] ^= sexp_unbox_fixnum(y);
-      if (sexp_bignum_sign(res) < 0)
-        sexp_set_twos_complement(res);
-    } else if (sexp_bignump(y) || sexp_fixnump(y)) {
-      if (sexp_fixnump(y) || sexp_bignum_length(x) >= sexp_bignum_length(y)) {
-        res = sexp_copy_bignum(ctx, NULL, x, 0);
-        tmp = sexp_fixnump(y) ? sexp_fixnum_to_twos_complement(ctx, y, sexp_bignum_length(x)) : sexp_twos_complement(ctx, y);
-        len = sexp_bignum_length(tmp);
-      } else {
-        res = sexp_copy_bignum(ctx, NULL, y, 0);
-        tmp = sexp_twos_complement(ctx, y);
-        len = sexp_bignum_length(tmp);
-      }
-      if (sexp_bignum_sign(res) < 0)
-        sexp_set_twos_complement(res);
-      tmplen = sexp_bignum_length(tmp);
-      for (i=0; i<len; i++)
-        sexp_bignum_data(res)[i] ^= (i<tmplen ? sexp_bignum_data(tmp)[i] : sexp_bignum_sign(tmp) < 0 ? -1 : 0);
-      if ((sexp_bignum_sign(x) < 0) ^ (sexp_fixnump(y) || sexp_bignum_sign(y) < 0))
-        sexp_set_twos_complement(res);
-      if (sexp_fixnump(y) || sexp_bignum_sign(y) < 0) {
-        sexp_negate_exact(res);
-      }
-    } else {
-      res = sexp_type_exception(ctx, self, SEXP_FIXNUM, y);
-    }
-    sexp_gc_release2(ctx);
-#endif
-  } else {
-    res = sexp_type_exception(ctx, self, SEXP_FIXNUM, x);
-  }
-  return sexp_bignum_normalize(res);
 }
 
 static int log2i(sexp_uint_t v) {
@@ -250,7 +159,8 @@ sexp sexp_arithmetic_shift (sexp ctx, sexp self, sexp_sint_t n, sexp i, sexp cou
   if (c == 0) return i;
   if (sexp_fixnump(i)) {
     if (c < 0) {
-      res = sexp_make_fixnum(c > -sizeof(sexp_sint_t)*CHAR_BIT ? sexp_unbox_fixnum(i) >> -c : 0);
+      res = sexp_make_fixnum(c > -(sexp_sint_t)(sizeof(sexp_sint_t)*CHAR_BIT) ? sexp_unbox_fixnum(i) >> -c
+                             : (sexp_unbox_fixnum(i) < 0 ? -1 : 0));
     } else {
 #if SEXP_USE_BIGNUMS
       if ((log2i(sexp_unbox_fixnum(i)) + c + 1)
@@ -287,8 +197,15 @@ sexp sexp_arithmetic_shift (sexp ctx, sexp self, sexp_sint_t n, sexp i, sexp cou
               tmp = sexp_bignum_data(i)[j+offset]
                 << (sizeof(sexp_uint_t)*CHAR_BIT-bit_shift);
           }
-          if (sexp_bignum_sign(res) < 0)
-            res = sexp_bignum_fxadd(ctx, res, 1);
+          if (sexp_bignum_sign(res) < 0) {
+            /* rounding towards -infinity: add one to the magnitude iff a one bit was shifted out */
+            for (j=0, tmp=0; j<offset && j<len; j++)
+              tmp |= sexp_bignum_data(i)[j];
+            if (bit_shift != 0 && offset < len)
+              tmp |= sexp_bignum_data(i)[offset] & (((sexp_uint_t)1<<bit_shift)-1);
+            if (tmp)
+              res = sexp_bignum_fxadd(ctx, res, 1);
+          }
         }
       }
     } else {
@@ -336,8 +253,18 @@ sexp sexp_bit_count (sexp ctx, sexp self, sexp_sint_t n, sexp x) {
     res = sexp_make_fixnum(bit_count(i<0 ? ~i : i));
 #if SEXP_USE_BIGNUMS
   } else if (sexp_bignump(x)) {
-    for (i=count=0; i<(sexp_sint_t)sexp_bignum_length(x); i++)
-      count += bit_count(sexp_bignum_data(x)[i]);
+    if (sexp_bignum_sign(x) < 0) {
+      /* count the one bits of (magnitude - 1) */
+      sexp_uint_t borrow = 1, w;
+      for (i=count=0; i<(sexp_sint_t)sexp_bignum_hi(x); i++) {
+        w = sexp_bignum_data(x)[i] - borrow;
+        borrow = (borrow && sexp_bignum_data(x)[i] == 0);
+        count += bit_count(w);
+      }
+    } else {
+      for (i=count=0; i<(sexp_sint_t)sexp_bignum_hi(x); i++)
+        count += bit_count(sexp_bignum_data(x)[i]);
+    }
     res = sexp_make_fixnum(count);
 #endif
   } else {
@@ -378,7 +305,13 @@ sexp sexp_integer_length (sexp ctx, sexp self, sexp_sint_t n, sexp x) {
 #if SEXP_USE_BIGNUMS
   } else if (sexp_bignump(x)) {
     hi = sexp_bignum_hi(x);
-    return sexp_make_fixnum(integer_log2(sexp_bignum_data(x)[hi-1])
+    tmp = 0;
+    if (sexp_bignum_sign(x) < 0) {
+      /* the length of (magnitude - 1): differs only for powers of two */
+      for (tmp=1, n=0; n<hi-1; n++)
+        if (sexp_bignum_data(x)[n]) { tmp = 0; break; }
+    }
+    return sexp_make_fixnum(integer_log2(sexp_bignum_data(x)[hi-1] - tmp)
                             + (hi-1)*sizeof(sexp_uint_t)*CHAR_BIT);
 #endif
   } else {
@@ -404,9 +337,18 @@ sexp sexp_bit_set_p (sexp ctx, sexp self, sexp_sint_t n, sexp i, sexp x) {
   } else if (sexp_bignump(x)) {
     pos /= (sizeof(sexp_uint_t)*CHAR_BIT);
     rem = (sexp_unbox_fixnum(i) - pos*sizeof(sexp_uint_t)*CHAR_BIT);
-    return sexp_make_boolean((pos < (sexp_sint_t)sexp_bignum_length(x))
-                             ? (sexp_bignum_data(x)[pos] & ((sexp_uint_t)1<<rem))
-                             : sexp_bignum_sign(x) < 0);
+    if (pos >= (sexp_sint_t)sexp_bignum_hi(x))
+      return sexp_make_boolean(sexp_bignum_sign(x) < 0);
+    if (sexp_bignum_sign(x) < 0) {
+      /* word pos of the two's complement form: ~w + 1 carried in from the low words */
+      sexp_uint_t w = ~sexp_bignum_data(x)[pos];
+      sexp_sint_t j;
+      for (j=0; j<pos; j++)
+        if (sexp_bignum_data(x)[j]) break;
+      if (j == pos) w += 1;
+      return sexp_make_boolean(w & ((sexp_uint_t)1<<rem));
+    }
+    return sexp_make_boolean(sexp_bignum_data(x)[pos] & ((sexp_uint_t)1<<rem));
 #endif
   } else {
     return sexp_type_exception(ctx, self, SEXP_FIXNUM, x);
